@@ -71,11 +71,13 @@ func runC18(c *Ctx) {
 	leaves := 0
 
 	// the split specification shared by SplitOffset, MakePCRel and MakeAbs: results (hi, lo) for an offset 4096·q + r
-	splitSpec := func(rule, construct string, fd *ast.FuncDecl, argsFor func(r int64) []pform, inputName string) {
+	// (qlo, qhi: the page numbers the input ranges over — signed 32-bit offsets, or unsigned 32-bit addresses; the
+	// identity is modulo 2^32, which is how lui/auipc + addi recombine the parts, and hi has to fit the 20-bit field)
+	splitSpec := func(rule, construct string, fd *ast.FuncDecl, argsFor func(r int64) []pform, inputName string, qlo, qhi int64) {
 		var bad, und []string
 		for r := int64(0); r < 4096; r++ {
 			delta := byteVal(map[string]int64{"q": 1}, nil, r, r)
-			leaves += pfAnalyse(info, funcs, fd, argsFor(r), map[string][2]int64{"q": {q19lo, q19hi}}, func(b map[string][2]int64, res []pform, ok bool) {
+			leaves += pfAnalyse(info, funcs, fd, argsFor(r), map[string][2]int64{"q": {qlo, qhi}}, func(b map[string][2]int64, res []pform, ok bool) {
 				at := fmt.Sprintf("%s = 4096·q%+d, q in [%d, %d] (e.g. %d)", inputName, r, b["q"][0], b["q"][1], 4096*witness(b, "q")+r)
 				if !ok || len(res) != 2 || !res[0].OK || !res[1].OK {
 					if len(und) < 4 {
@@ -101,8 +103,14 @@ func runC18(c *Ctx) {
 					sh := hp.clone()
 					sh.PageSc = false
 					sum := pfAddSub(sh, lo, 1)
-					if !pfEqual(sum, pfResolve(delta, b)) {
-						bad = append(bad, fmt.Sprintf("%s: 4096·hi + lo = %s, not the offset (hi = %s, lo = %d)", at, sum.String(), hi.String(), lov))
+					want := pfResolve(delta, b)
+					// equal modulo 2^32 (= 2^20 pages)
+					diff := pfAddSub(sum, want, -1)
+					dv, isK := diff.concrete()
+					if !isK || dv%(1<<32) != 0 {
+						bad = append(bad, fmt.Sprintf("%s: 4096·hi + lo = %s, not the offset modulo 2^32 (hi = %s, lo = %d)", at, sum.String(), hi.String(), lov))
+					} else if hmin, hmax, okH := (&pfEnv{bounds: b}).rangeOf(hp); !okH || hmin < -(1<<19) || hmax > 1<<20-1 {
+						bad = append(bad, fmt.Sprintf("%s: hi = %s ranges over [%d, %d], which does not fit the 20-bit immediate of lui/auipc/lu12i.w (signed or unsigned)", at, hi.String(), hmin, hmax))
 					}
 				}
 			})
@@ -122,17 +130,17 @@ func runC18(c *Ctx) {
 	if fd := get("split-exact", "SplitOffset"); fd != nil {
 		splitSpec("split-exact", "SplitOffset", fd, func(r int64) []pform {
 			return []pform{byteVal(map[string]int64{"q": 1}, nil, r, r)}
-		}, "delta")
+		}, "delta", q19lo, q19hi)
 	}
 	if fd := get("make-delegates", "MakePCRel"); fd != nil {
 		splitSpec("make-delegates", "MakePCRel", fd, func(r int64) []pform {
 			return []pform{byteVal(map[string]int64{"q": 1}, map[string]int64{"pc": 1}, r, r), byteVal(nil, map[string]int64{"pc": 1}, 0, 0)}
-		}, "target - pc")
+		}, "target - pc", q19lo, q19hi)
 	}
 	if fd := get("make-delegates", "MakeAbs"); fd != nil {
 		splitSpec("make-delegates", "MakeAbs", fd, func(r int64) []pform {
 			return []pform{byteVal(map[string]int64{"q": 1}, nil, r, r)}
-		}, "target")
+		}, "target", 0, 1<<20-1) // an unsigned 32-bit address
 	}
 
 	if fd := get("combine-exact", "CombineOffset"); fd != nil {
@@ -320,6 +328,31 @@ func c18CallSites(c *Ctx, p *Prog, ak *packages.Package) {
 						a1 := argRoot(call.Args[1])
 						if a1 == nil || !advanced[a1] || looked[a1] {
 							probs = append(probs, "argument 1 ("+types.ExprString(call.Args[1])+") is not the running pc")
+						} else {
+							// the pc passed is the address of the instruction being processed: within the
+							// enclosing loop body the pc is not advanced before this call
+							var loopBody *ast.BlockStmt
+							ast.Inspect(fd.Body, func(m ast.Node) bool {
+								switch l := m.(type) {
+								case *ast.ForStmt:
+									if l.Body.Pos() <= call.Pos() && call.End() <= l.Body.End() {
+										loopBody = l.Body
+									}
+								case *ast.RangeStmt:
+									if l.Body.Pos() <= call.Pos() && call.End() <= l.Body.End() {
+										loopBody = l.Body
+									}
+								}
+								return true
+							})
+							if loopBody != nil {
+								ast.Inspect(loopBody, func(m ast.Node) bool {
+									if a2, ok := m.(*ast.AssignStmt); ok && a2.Tok == token.ADD_ASSIGN && len(a2.Lhs) == 1 && identObj(info, a2.Lhs[0]) == a1 && a2.Pos() < call.Pos() {
+										probs = append(probs, "the running pc is advanced past the instruction ("+p.Pos(a2.Pos())+") before it is used as the instruction's own address: the page of the next instruction is used, which differs at the last slot of a 4 KiB page")
+									}
+									return true
+								})
+							}
 						}
 					}
 					hiObj, loObj := identObj(info, as.Lhs[0]), identObj(info, as.Lhs[1])
